@@ -11,6 +11,7 @@ CONSTANTS
   Kinds = {"cpuset"}
   Algos = {"suppress"}
   CacheMode = "cold"
+  ExternalSteps = FALSE
 INVARIANT V
 INVARIANT TNAtEnd
 PROPERTY StepIsPropStep
